@@ -1,1 +1,433 @@
-/-! C08 — property theorems (none yet). -/
+import Req.Pool.Cancel
+import Req.Lemmas.CancelStuck
+/-!
+C08 — cancellation and timeouts take effect at every point of a request's life.
+
+Model: `Req/Pool/Cancel.lean` (decision logic of `mapRoundTripError`, the retry decision of
+`Request.do` with its sleeping state, and the small-step lifecycle of one request on the
+three stacks).  "Promptly" is carried as a bound on the number of *internal* steps — steps
+that need neither the peer nor a timer — after the context is cancelled; wall-clock
+promptness and real goroutine exit are sampled by the script lane, not proved.
+
+* `maperr_prefers_cancel` — `mapRoundTripError` reports the cancellation cause whatever else
+  went wrong (write error, read error, closed connection, request-body error).
+* `cancel_prompt` — from EVERY reachable state, once the context is cancelled (or its deadline
+  passes) every run of internal steps has at most `K` steps, never completes a retry sleep,
+  and when it cannot be extended the call is over with an error identifying the cancellation.
+  Conditional on the sleep fact (`sleepSelectsCtx`, regenerated from request.go by gofacts,
+  bridged in `Bridge/C08.lean`).
+* `cancel_quiesces` — same bound and release for ANY reachable state whose context is
+  cancelled (also when peer events were interleaved after the cancel).
+* `cancel_releases` — at that point nothing is held: body closed (exactly once), no writer /
+  reader / watcher / closer goroutine, no open stream, connection not left occupied.
+* `cancel_stops_retry` — after the cancel no inter-attempt sleep completes during internal
+  runs; and whatever the environment does, an attempt started after a later sleep never gets
+  past the context check (it never reaches the network).
+* `cancel_terminates` — a maximal internal run exists from every state (the ∀-runs statements
+  are not vacuous).
+* `cancel_prompt_needs_sleep_fact` — with a `time.Sleep` that ignores the context the
+  statement is false: concrete witness (replayed on the implementation by the script lane).
+-/
+set_option linter.unusedSimpArgs false
+set_option linter.unusedVariables false
+namespace Req.Props.C08
+open Req.Cancel
+
+/-! ### mapRoundTripError -/
+
+/-- **maperr_prefers_cancel**: a recorded cancellation cause wins over every other error. -/
+theorem maperr_prefers_cancel (i : MapIn) (e : CtxErr)
+    (herr : i.errNil = false) (hc : i.canceled = some e) :
+    mapRoundTripError i = .canceled e := by
+  simp [mapRoundTripError, herr, hc]
+
+/-- without a cancellation the cause is never invented -/
+theorem maperr_no_cancel_without_cause (i : MapIn) (e : CtxErr) (hc : i.canceled = none) :
+    mapRoundTripError i ≠ .canceled e := by
+  unfold mapRoundTripError
+  simp only [hc]
+  repeat' split
+  all_goals simp
+
+/-- `nil` in, `nil` out — and only then -/
+theorem maperr_nil_iff (i : MapIn) : mapRoundTripError i = .nil ↔ i.errNil = true := by
+  unfold mapRoundTripError
+  constructor
+  · intro h
+    repeat' split at h
+    all_goals simp_all
+  · intro h; simp [h]
+
+example : mapRoundTripError ⟨false, some .deadline, true, .readFromServer, true, true⟩ =
+    .canceled .deadline := by decide
+
+/-! ### runs of internal steps after a cancellation -/
+
+/-- the invariants carried along an internal run of a cancelled request -/
+theorem run_carries (cfg : Cfg) (e : CtxErr) :
+    ∀ (as : List Act) (s s' : St), Run cfg s as s' → Inv cfg s → s.ctx = some e → PostOK e s →
+      as.length + mu cfg s' ≤ mu cfg s ∧ Inv cfg s' ∧ s'.ctx = some e ∧ PostOK e s' ∧
+      s'.sleepsDone = s.sleepsDone := by
+  intro as
+  induction as with
+  | nil =>
+    intro s s' hr hi hc hp
+    cases hr
+    exact ⟨by simp, hi, hc, hp, rfl⟩
+  | cons a as ih =>
+    intro s s' hr hi hc hp
+    cases hr with
+    | cons hg hrest =>
+      have hi' := inv_act cfg s a hi hg
+      have hc' : (apply cfg s a).ctx = some e := by rw [act_ctx]; exact hc
+      have hp' := post_act cfg s a e hi hc hg hp
+      have hd := mu_dec cfg s a hg
+      obtain ⟨h1, h2, h3, h4, h5⟩ := ih _ _ hrest hi' hc' hp'
+      refine ⟨?_, h2, h3, h4, ?_⟩
+      · simp only [List.length_cons]; omega
+      · rw [h5, act_sleepsDone]
+
+/-- body closed exactly once (or never opened) -/
+def bodyClosedOnce (cfg : Cfg) (r : Res) : Prop :=
+  r.bodyOpen = false ∧ r.closes = if 0 < cfg.bodyChunks then 1 else 0
+
+theorem released_closed_once (cfg : Cfg) (s : St) (hi : Inv cfg s) (hr : s.res.released = true) :
+    bodyClosedOnce cfg s.res := by
+  have hb : s.res.bodyOpen = false := by
+    simp only [Res.released, Bool.and_eq_true, Bool.not_eq_true'] at hr
+    exact hr.1.1.1.1.1.1.1
+  refine ⟨hb, ?_⟩
+  have := hi.closesEq
+  simpa [hb] using this
+
+/-- **cancel_prompt**: from every reachable state, after the context is cancelled every run of
+internal steps is at most `K` long, completes no retry sleep, and when it cannot be extended
+the call has returned with an error identifying the cancellation and everything is released. -/
+theorem cancel_prompt (cfg : Cfg) (hfact : cfg.sleepSelectsCtx = true)
+    (s : St) (hreach : Reach cfg s) (e : CtxErr) (hcan : evGuard cfg s (.cancel e) = true)
+    (as : List Act) (s' : St) (hrun : Run cfg (evApply cfg s (.cancel e)) as s') :
+    as.length ≤ K ∧ s'.sleepsDone = s.sleepsDone ∧
+    (stuck cfg s' = true →
+      s'.phase = .done ∧ s'.result.identifies e = true ∧ s'.res.released = true ∧
+      bodyClosedOnce cfg s'.res) := by
+  have hi := reach_inv cfg s hreach
+  have hi0 := inv_ev cfg s (.cancel e) hi hcan
+  have hc0 : (evApply cfg s (.cancel e)).ctx = some e := rfl
+  have hp0 : PostOK e (evApply cfg s (.cancel e)) := by
+    intro h
+    simp only [evGuard, Bool.and_eq_true, bne_iff_ne, ne_eq] at hcan
+    exact absurd h hcan.2
+  obtain ⟨h1, h2, h3, h4, h5⟩ := run_carries cfg e as _ _ hrun hi0 hc0 hp0
+  refine ⟨?_, ?_, ?_⟩
+  · have := mu_le_K cfg (evApply cfg s (.cancel e)); omega
+  · rw [h5]; rfl
+  · intro hst
+    have hall := (stuck_iff cfg s').mp hst
+    obtain ⟨hd, hr⟩ := stuck_done cfg s' h2 (by simp [h3]) hfact hall
+    exact ⟨hd, h4 hd, hr, released_closed_once cfg s' h2 hr⟩
+
+/-- **cancel_quiesces**: any reachable state whose context is cancelled — whatever the peer did in
+between — is at most `K` internal steps away from quiescence, and quiescent means: call over,
+everything released, body closed exactly once. -/
+theorem cancel_quiesces (cfg : Cfg) (hfact : cfg.sleepSelectsCtx = true)
+    (s : St) (hreach : Reach cfg s) (hc : s.ctx.isSome = true)
+    (as : List Act) (s' : St) (hrun : Run cfg s as s') :
+    as.length ≤ K ∧ s'.sleepsDone = s.sleepsDone ∧
+    (stuck cfg s' = true → s'.phase = .done ∧ s'.res.released = true ∧ bodyClosedOnce cfg s'.res) := by
+  have hi := reach_inv cfg s hreach
+  have hlen : ∀ (as : List Act) (s s' : St), Run cfg s as s' → Inv cfg s →
+      as.length + mu cfg s' ≤ mu cfg s ∧ Inv cfg s' ∧ s'.ctx = s.ctx ∧ s'.sleepsDone = s.sleepsDone := by
+    intro as
+    induction as with
+    | nil => intro s s' hr hi; cases hr; exact ⟨by simp, hi, rfl, rfl⟩
+    | cons a as ih =>
+      intro s s' hr hi
+      cases hr with
+      | cons hg hrest =>
+        obtain ⟨h1, h2, h3, h4⟩ := ih _ _ hrest (inv_act cfg s a hi hg)
+        have hd := mu_dec cfg s a hg
+        refine ⟨by simp only [List.length_cons]; omega, h2, by rw [h3, act_ctx], by rw [h4, act_sleepsDone]⟩
+  obtain ⟨h1, h2, h3, h4⟩ := hlen as s s' hrun hi
+  refine ⟨by have := mu_le_K cfg s; omega, h4, ?_⟩
+  intro hst
+  obtain ⟨hd, hr⟩ := stuck_done cfg s' h2 (by rw [h3]; exact hc) hfact ((stuck_iff cfg s').mp hst)
+  exact ⟨hd, hr, released_closed_once cfg s' h2 hr⟩
+
+/-- **cancel_releases**: the release part of `cancel_prompt` on its own. -/
+theorem cancel_releases (cfg : Cfg) (hfact : cfg.sleepSelectsCtx = true)
+    (s : St) (hreach : Reach cfg s) (e : CtxErr) (hcan : evGuard cfg s (.cancel e) = true)
+    (as : List Act) (s' : St) (hrun : Run cfg (evApply cfg s (.cancel e)) as s')
+    (hst : stuck cfg s' = true) :
+    s'.res.bodyOpen = false ∧ s'.res.closes = (if 0 < cfg.bodyChunks then 1 else 0) ∧
+    s'.res.writer = false ∧ s'.res.reader = false ∧ s'.res.watch = false ∧ s'.res.closing = false ∧
+    s'.res.stream ≠ .open ∧ s'.res.conn ≠ .owned ∧ s'.res.conn ≠ .ready := by
+  obtain ⟨_, _, h⟩ := cancel_prompt cfg hfact s hreach e hcan as s' hrun
+  obtain ⟨_, _, hr, hb, hcl⟩ := h hst
+  simp only [Res.released, Bool.and_eq_true, Bool.not_eq_true', bne_iff_ne, ne_eq] at hr
+  obtain ⟨⟨⟨⟨⟨⟨⟨r1, r2⟩, r3⟩, r4⟩, r5⟩, r6⟩, r7⟩, r8⟩ := hr
+  exact ⟨hb, hcl, r3, r4, r5, r2, r6, r7, r8⟩
+
+/-- **cancel_terminates**: from every state some run of internal steps reaches a state where
+none is enabled — so "every maximal run …" above speaks about runs that exist. -/
+theorem cancel_terminates (cfg : Cfg) (s : St) :
+    ∃ as s', Run cfg s as s' ∧ stuck cfg s' = true := by
+  generalize hn : mu cfg s = n
+  induction n using Nat.strongRecOn generalizing s with
+  | _ n ih =>
+    by_cases hst : stuck cfg s = true
+    · exact ⟨[], s, Run.nil s, hst⟩
+    · have : ∃ a, guard cfg s a = true := by
+        apply Classical.byContradiction
+        intro hno
+        apply hst
+        rw [stuck_iff]
+        intro a
+        cases hga : guard cfg s a
+        · rfl
+        · exact absurd ⟨a, hga⟩ hno
+      obtain ⟨a, hg⟩ := this
+      have hd := mu_dec cfg s a hg
+      obtain ⟨as, s', hr, hs'⟩ := ih (mu cfg (apply cfg s a)) (by omega) (apply cfg s a) rfl
+      exact ⟨a :: as, s', Run.cons hg hr, hs'⟩
+
+/-! ### no retry after a cancellation -/
+
+/-- the attempt is over: the caller is sleeping between attempts or has returned -/
+def over (p : Phase) : Prop := p = .retrySleep ∨ p = .done
+
+/-- any mixture of environment events and internal steps -/
+inductive Steps (cfg : Cfg) : St → St → Prop
+  | refl (s) : Steps cfg s s
+  | ev {s s'} (e : Ev) : evGuard cfg s e = true → Steps cfg (evApply cfg s e) s' → Steps cfg s s'
+  | act {s s'} (a : Act) : guard cfg s a = true → Steps cfg (apply cfg s a) s' → Steps cfg s s'
+
+theorem finish_over (cfg : Cfg) (s : St) (r : Result) : over (finish cfg s r).phase := by
+  rcases finish_phase cfg s r with h | h
+  · exact Or.inr h
+  · exact Or.inl h
+
+theorem finishBody_over (cfg : Cfg) (s : St) (r : Result) : over (finishBody cfg s r).phase := by
+  rcases finishBody_phase cfg s r with h | h
+  · exact Or.inr h
+  · exact Or.inl h
+
+theorem act_over (cfg : Cfg) (s : St) (a : Act) (hg : guard cfg s a = true) (ho : over s.phase) :
+    over (apply cfg s a).phase := by
+  have hpre : s.phase.preConn = false := by rcases ho with h | h <;> simp [h]
+  have hinf : s.phase.inflight = false := by rcases ho with h | h <;> simp [h]
+  have hbody : s.phase.body = false := by rcases ho with h | h <;> simp [h]
+  cases a <;> simp [Cancel.guard, hpre, hinf, hbody] at hg <;> simp [apply, over] <;>
+    first | exact ho | skip
+
+theorem ev_over (cfg : Cfg) (s : St) (e : Ev) (hg : evGuard cfg s e = true) (hc : s.ctx.isSome = true)
+    (ho : over s.phase) : over (evApply cfg s e).phase := by
+  have hnone : s.ctx.isNone = false := by cases h : s.ctx <;> simp_all
+  cases e
+  case cancel e => simp [evGuard, hnone] at hg
+  case sleepElapse =>
+    cases hctx : s.ctx with
+    | none => simp [hctx] at hc
+    | some e' => simp only [evApply, hctx]; exact finish_over _ _ _
+  case dialDone =>
+    simp only [evApply]
+    split
+    · rename_i h; simp only [beq_iff_eq] at h; rcases ho with h' | h' <;> simp [h'] at h
+    · exact ho
+  all_goals (rcases ho with h | h <;> simp [evGuard, h, Phase.body] at hg)
+
+theorem ev_sleepsDone (cfg : Cfg) (s : St) (e : Ev) (hg : evGuard cfg s e = true) :
+    (evApply cfg s e).sleepsDone = s.sleepsDone ∨
+    (e = .sleepElapse ∧ (evApply cfg s e).sleepsDone = s.sleepsDone + 1 ∧ s.phase = .retrySleep) := by
+  cases e
+  case sleepElapse =>
+    right
+    simp only [evGuard, Bool.and_eq_true, beq_iff_eq] at hg
+    refine ⟨rfl, ?_, hg.1⟩
+    simp only [evApply]
+    split <;> simp
+  all_goals left
+  case cancel e => rfl
+  case connIdle => rfl
+  case dialStart => rfl
+  case hsDone => rfl
+  case attemptFails => simp [evApply]
+  case dialDone => simp only [evApply]; split <;> (try split) <;> rfl
+  case wrote =>
+    simp only [evApply]
+    split
+    · split <;> rfl
+    · split <;> rfl
+    · rfl
+  case gotHeaders => simp only [evApply, completeOk]; split <;> simp
+  case gotBody =>
+    simp only [evApply, completeOk]
+    split
+    · split <;> simp
+    · rfl
+
+theorem ev_ctx_isSome (cfg : Cfg) (s : St) (e : Ev) (hc : s.ctx.isSome = true) :
+    (evApply cfg s e).ctx.isSome = true := by
+  cases e
+  case cancel e => rfl
+  case connIdle => exact hc
+  case dialStart => exact hc
+  case hsDone => exact hc
+  case attemptFails => simpa [evApply] using hc
+  case dialDone => simp only [evApply]; split <;> (try split) <;> exact hc
+  case wrote =>
+    simp only [evApply]
+    split
+    · split <;> exact hc
+    · split <;> exact hc
+    · exact hc
+  case gotHeaders => simp only [evApply, completeOk]; split <;> simpa using hc
+  case gotBody =>
+    simp only [evApply, completeOk]
+    split
+    · split <;> simpa using hc
+    · exact hc
+  case sleepElapse =>
+    simp only [evApply]
+    split <;> simp_all
+
+/-- **cancel_stops_retry**: once the context is cancelled, whatever the environment does
+(peer events, timers firing, in any interleaving with the internal steps), every state in which
+a further retry sleep has completed has the caller sleeping or returned — an attempt started
+after the cancel never gets past the context check, nothing reaches the network — and an
+attempt that is over stays over. Needs no sleep fact (it is the `<-ctx.Done()` check at the top
+of `Transport.roundTrip` and `contextCanceled` in `Request.do`). -/
+theorem cancel_stops_retry (cfg : Cfg) (s s' : St) (hc : s.ctx.isSome = true)
+    (hsteps : Steps cfg s s') :
+    s'.ctx.isSome = true ∧ s.sleepsDone ≤ s'.sleepsDone ∧
+    (s.sleepsDone < s'.sleepsDone → over s'.phase) ∧ (over s.phase → over s'.phase) := by
+  suffices h : ∀ n (t t' : St), Steps cfg t t' → t.ctx.isSome = true → n ≤ t.sleepsDone →
+      (n < t.sleepsDone → over t.phase) →
+      t'.ctx.isSome = true ∧ n ≤ t'.sleepsDone ∧ (n < t'.sleepsDone → over t'.phase) ∧
+      (over t.phase → over t'.phase) by
+    exact h s.sleepsDone s s' hsteps hc (Nat.le_refl _) (fun h => absurd h (Nat.lt_irrefl _))
+  intro n t t' hst
+  induction hst with
+  | refl t => intro h1 h2 h3; exact ⟨h1, h2, h3, id⟩
+  | @ev t t'' e hg _ ih =>
+    intro h1 h2 h3
+    have hc' := ev_ctx_isSome cfg t e h1
+    rcases ev_sleepsDone cfg t e hg with hsd | ⟨_, hsd, hph⟩
+    · obtain ⟨r1, r2, r3, r4⟩ := ih hc' (by omega)
+        (fun h => ev_over cfg t e hg h1 (h3 (by omega)))
+      exact ⟨r1, r2, r3, fun ho => r4 (ev_over cfg t e hg h1 ho)⟩
+    · have ho : over t.phase := Or.inl hph
+      obtain ⟨r1, r2, r3, r4⟩ := ih hc' (by omega) (fun _ => ev_over cfg t e hg h1 ho)
+      exact ⟨r1, r2, r3, fun ho => r4 (ev_over cfg t e hg h1 ho)⟩
+  | @act t t'' a hg _ ih =>
+    intro h1 h2 h3
+    have hc' : (apply cfg t a).ctx.isSome = true := by rw [act_ctx]; exact h1
+    have hsd := act_sleepsDone cfg t a
+    obtain ⟨r1, r2, r3, r4⟩ := ih hc' (by omega) (fun h => act_over cfg t a hg (h3 (by omega)))
+    exact ⟨r1, r2, r3, fun ho => r4 (act_over cfg t a hg ho)⟩
+
+/-- internal runs are `Steps` -/
+theorem run_steps (cfg : Cfg) : ∀ (as : List Act) (s s' : St), Run cfg s as s' → Steps cfg s s' := by
+  intro as
+  induction as with
+  | nil => intro s s' h; cases h; exact Steps.refl s
+  | cons a as ih => intro s s' h; cases h with | cons hg hr => exact Steps.act a hg (ih _ _ hr)
+
+/-! ### the sleep fact is necessary -/
+
+/-- HTTP/1.1, one retry, a `time.Sleep` that ignores the context -/
+def cfgBareSleep : Cfg := { stack := .h1, maxRetries := 1, sleepSelectsCtx := false }
+
+/-- first attempt fails (peer closes), the caller sleeps before the retry -/
+def sleeping : St :=
+  evApply cfgBareSleep
+    (evApply cfgBareSleep
+      (apply cfgBareSleep
+        (evApply cfgBareSleep (evApply cfgBareSleep (init cfgBareSleep) .dialStart) .dialDone)
+        .deliver)
+      .wrote)
+    .attemptFails
+
+theorem sleeping_reach : Reach cfgBareSleep sleeping := by
+  unfold sleeping
+  refine Reach.ev _ (Reach.ev _ (Reach.act _ (Reach.ev _ (Reach.ev _ Reach.init ?_) ?_) ?_) ?_) ?_ <;> decide
+
+/-- **cancel_prompt_needs_sleep_fact**: with the bare `time.Sleep` of the current request.go a
+request cancelled while sleeping between attempts is stuck — no internal step is enabled — and
+has NOT returned: only the timer gets it out. (`cancel_prompt` fails without the fact.) -/
+theorem cancel_prompt_needs_sleep_fact :
+    Reach cfgBareSleep sleeping ∧
+    evGuard cfgBareSleep sleeping (.cancel .canceled) = true ∧
+    stuck cfgBareSleep (evApply cfgBareSleep sleeping (.cancel .canceled)) = true ∧
+    (evApply cfgBareSleep sleeping (.cancel .canceled)).phase = .retrySleep := by
+  refine ⟨sleeping_reach, ?_, ?_, ?_⟩ <;> decide
+
+/-- … and with the repaired wait the same state leaves the sleep at once with the context error -/
+example :
+    let cfg := { cfgBareSleep with sleepSelectsCtx := true }
+    finals cfg 20 (evApply cfg sleeping (.cancel .canceled)) |>.all
+      (fun s => s.phase == .done && s.result == .ctxErr .canceled && s.res.released) = true := by
+  decide
+
+/-! ### non-vacuity: concrete reachable states in every phase group, on every stack -/
+
+/-- HTTP/1.1 upload of 3 chunks over TLS, cancelled while writing the second chunk -/
+def cfgUp : Cfg := { stack := .h1, tls := true, bodyChunks := 3, respChunks := 2, maxRetries := 2 }
+
+def upMid : St :=
+  evApply cfgUp (evApply cfgUp (apply cfgUp
+    (evApply cfgUp (evApply cfgUp (evApply cfgUp (init cfgUp) .dialStart) .dialDone) .hsDone)
+    .deliver) .wrote) .wrote
+
+example : Reach cfgUp upMid := by
+  unfold upMid
+  refine Reach.ev _ (Reach.ev _ (Reach.act _ (Reach.ev _ (Reach.ev _ (Reach.ev _ Reach.init ?_) ?_) ?_) ?_) ?_) ?_ <;>
+    decide
+
+example : upMid.phase = .writingBody 1 ∧ upMid.res.bodyOpen = true ∧ upMid.res.writer = true := by decide
+
+example : evGuard cfgUp upMid (.cancel .deadline) = true := by decide
+
+/-- all maximal internal runs after a deadline in that state: returned with the deadline error
+(the retry sleep is left at once), body closed once, connection closed, loops gone -/
+example :
+    (finals cfgUp 20 (evApply cfgUp upMid (.cancel .deadline))).all
+      (fun s => s.phase == .done && s.result == .ctxErr .deadline && s.res.released &&
+                s.res.closes == 1 && s.res.conn == .closed && s.sleepsDone == 0) = true := by
+  decide
+
+/-- HTTP/2 download cancelled while the caller reads the body: RST_STREAM, connection kept -/
+def cfgDown2 : Cfg := { stack := .h2, tls := true, bodyChunks := 0, respChunks := 3 }
+
+def down2 : St :=
+  evApply cfgDown2 (evApply cfgDown2 (evApply cfgDown2 (apply cfgDown2
+    (evApply cfgDown2 (init cfgDown2) .connIdle) .deliver) .wrote) .gotHeaders) .gotBody
+
+example : Reach cfgDown2 down2 := by
+  unfold down2
+  refine Reach.ev _ (Reach.ev _ (Reach.ev _ (Reach.act _ (Reach.ev _ Reach.init ?_) ?_) ?_) ?_) ?_ <;> decide
+
+example : down2.phase = .readingBody 1 := by decide
+
+example :
+    (finals cfgDown2 20 (evApply cfgDown2 down2 (.cancel .canceled))).all
+      (fun s => s.phase == .done && s.result == .ctxErr .canceled && s.res.released &&
+                s.res.stream == .reset && s.res.conn == .pooled) = true := by
+  decide
+
+/-- HTTP/3 upload cancelled mid-body -/
+def cfgUp3 : Cfg := { stack := .h3, tls := true, bodyChunks := 2, respChunks := 1 }
+
+def up3 : St :=
+  evApply cfgUp3 (apply cfgUp3 (evApply cfgUp3 (init cfgUp3) .connIdle) .deliver) .wrote
+
+example : Reach cfgUp3 up3 := by
+  unfold up3
+  refine Reach.ev _ (Reach.act _ (Reach.ev _ Reach.init ?_) ?_) ?_ <;> decide
+
+example :
+    (finals cfgUp3 20 (evApply cfgUp3 up3 (.cancel .canceled))).all
+      (fun s => s.phase == .done && s.result == .ctxErr .canceled && s.res.released &&
+                s.res.closes == 1 && s.res.stream == .reset) = true := by
+  decide
+
+end Req.Props.C08
